@@ -114,6 +114,8 @@ pub mod pst;
 pub mod tpe;
 pub mod transitive_closure;
 pub mod validator;
+#[cfg(feature = "verif-hooks")]
+pub mod verif_hooks;
 
 #[cfg(any(test, feature = "test-util"))]
 #[cfg_attr(docsrs, doc(cfg(feature = "test-util")))]
